@@ -4,7 +4,7 @@ independently in a scratch worktree at /repo's HEAD (demo passes without / fails
 stable baseline tests still pass with it) and store under seeded/<id>b/."""
 import json, os, shutil, subprocess, sys, time
 VERIF = os.path.dirname(os.path.dirname(os.path.abspath(__file__)))
-WT = '/tmp/verify-wt3'
+WT = '/tmp/verify-wt3-' + '-'.join(sys.argv[1:])[:40]
 ids = sys.argv[1:]
 props = {json.loads(l)['id']: json.loads(l) for l in open(os.path.join(VERIF, 'properties.jsonl'))}
 HEAD = subprocess.check_output(['git', '-C', '/repo', 'rev-parse', '--short', 'HEAD']).decode().strip()
